@@ -122,7 +122,7 @@ func runC10(r *vh.Run, i int) {
 	}
 	mk := func(kind vh.StoreKind, root string) *hist {
 		rng := r.Rand(i)
-		u := vh.GenUniverse(rng, vh.UOpts{Aliasing: true, Algs: i%3 == 0, Tag: fmt.Sprint(i)})
+		u := vh.GenUniverse(rng, vh.UOpts{Aliasing: true, Algs: i%3 == 0, Docker: i%2 == 1, Tag: fmt.Sprint(i)})
 		pol := vh.Policy{Untagged: rng.Intn(2) == 0, Dangling: rng.Intn(2) == 0, WithSubj: rng.Intn(2) == 0, EmptyRepo: rng.Intn(2) == 0, Grace: time.Hour}
 		if rng.Intn(2) == 0 {
 			pol.Grace = -1
